@@ -451,8 +451,11 @@ class Interp:
         raise Unsupported(f'truth of {v!r}')
 
     def deref(self, st, r):
-        v = st.store[r.id]
-        return v
+        """contents of a concrete-shaped container; anything else (unknown state, a symbolic value) is returned as it
+        is, so that sidecars can state `isinstance(x, dict)` as an obligation instead of crashing"""
+        if not isinstance(r, PyRef):
+            return r
+        return st.store[r.id]
 
     # ---------------------------------------------------------- expressions
     def ev(self, node, st):
@@ -489,8 +492,24 @@ class Interp:
             rel = getattr(self, 'relpath', None)
             if rel is None:
                 raise
+            top = getattr(self, 'unit_node', None)
+            if top is not None and any(isinstance(n, ast.Name) and n.id == node.id and isinstance(n.ctx, ast.Store) for n in ast.walk(top)):
+                # a local that is assigned on other paths only: unbound here (UnboundLocalError) or, inside a cut loop,
+                # whatever an earlier iteration left in it -> an arbitrary value
+                st.emit('possibly_unbound_local', name=node.id)
+                yield st, Unknown(f'local:{node.id}')
+                return
             try:
                 v = ast.literal_eval(source.module_assign(rel, node.id))
+                if isinstance(v, (dict, list, set)):
+                    # a module-level MUTABLE object is shared by all calls (and all instances): if this function can
+                    # mutate it - directly or through a local alias - its contents on entry are whatever earlier calls
+                    # left there; otherwise it is a constant table
+                    if top is not None and self._mutates_module_object(top, node.id):
+                        st.emit('shared_module_state_used', name=node.id)
+                        yield st, Unknown(f'module:{node.id}')
+                        return
+                    v = st.new_py({dict: 'dict', list: 'list', set: 'set'}[type(v)], v if not isinstance(v, set) else list(v))
             except Exception:
                 # a name the module imports but no sidecar models (e.g. an import added by a change): an unknown
                 # library object; whatever is computed from it is unconstrained
@@ -500,6 +519,22 @@ class Interp:
                     raise Unsupported(f'unbound name {node.id!r}')
                 v = Unknown(f'import:{node.id}')
             yield st, v
+
+    @staticmethod
+    def _mutates_module_object(fn, name):
+        aliases = {name}
+        for n in ast.walk(fn):
+            if isinstance(n, ast.Assign) and isinstance(n.value, ast.Name) and n.value.id in aliases:
+                aliases |= {t.id for t in n.targets if isinstance(t, ast.Name)}
+        for n in ast.walk(fn):
+            if isinstance(n, ast.Subscript) and isinstance(n.ctx, (ast.Store, ast.Del)) and isinstance(n.value, ast.Name) and n.value.id in aliases:
+                return True
+            if (isinstance(n, ast.Call) and isinstance(n.func, ast.Attribute) and isinstance(n.func.value, ast.Name) and n.func.value.id in aliases
+                    and n.func.attr in ('append', 'extend', 'add', 'update', 'discard', 'remove', 'pop', 'clear', 'setdefault', 'insert', 'popitem', 'sort')):
+                return True
+            if isinstance(n, ast.AugAssign) and isinstance(n.target, ast.Name) and n.target.id in aliases:
+                return True
+        return False
 
     def ev_NamedExpr(self, node, st):
         for s, v in self.ev(node.value, st):
@@ -890,7 +925,11 @@ class Interp:
                 if isinstance(itv, SV) and hasattr(itv.ty, 'comprehension'):
                     yield from itv.ty.comprehension(self, s, itv, node)
                     continue
-                raise Unsupported('comprehension over symbolic iterable')
+                # a comprehension the engine has no closed form for: its value is unconstrained (the element
+                # expression is assumed free of side effects, as comprehensions in this code base are)
+                s.emit('opaque_comprehension', text=ast.unparse(node)[:120])
+                yield s, Unknown('comprehension:' + ast.unparse(node)[:60])
+                continue
 
             def go(i, s, acc):
                 if i == len(items):
@@ -1074,7 +1113,14 @@ class Interp:
 
     def do_yield(self, node, st):
         if isinstance(node, ast.YieldFrom):
-            raise Unsupported('yield from')
+            # every element of the operand is yielded, in order: recorded as ONE quantified event
+            for s, v in self.ev(node.value, st):
+                if isinstance(v, Raised):
+                    yield s, ('raise', v.exc)
+                    continue
+                s.emit('yield_from', value=v)
+                yield s, OUT_NORMAL
+            return
         vals = self.ev(node.value, st) if node.value is not None else [(st, None)]
         for s, v in vals:
             if isinstance(v, Raised):
@@ -1542,8 +1588,24 @@ class Interp:
                     raise Unsupported(f'havoc of None-initialised {nm}: add a type hint')
                 st.assign(nm, sym.fresh(hint, nm))
             elif isinstance(v, (PyRef, tuple)):
-                raise Unsupported(f'loop modifies concrete-shaped container {nm}')
+                # a concrete-shaped container re-bound in the loop without a sidecar type: arbitrary after any iteration
+                st.assign(nm, Unknown(f'local:{nm}'))
             # closures / models: re-bound defs are not expected
+        # containers built before the loop and mutated IN PLACE inside it (x.add(..), x[k] = .., del x[k]) without a
+        # sidecar type: their contents at the start of the generic iteration are arbitrary
+        mutated = set()
+        for part in [node.body]:
+            for s_ in part:
+                for n_ in ast.walk(s_):
+                    if (isinstance(n_, ast.Call) and isinstance(n_.func, ast.Attribute) and isinstance(n_.func.value, ast.Name)
+                            and n_.func.attr in ('append', 'extend', 'add', 'update', 'discard', 'remove', 'pop', 'clear', 'setdefault',
+                                                 'insert', 'popitem', 'difference_update', 'intersection_update', 'sort')):
+                        mutated.add(n_.func.value.id)
+                    elif isinstance(n_, (ast.Subscript,)) and isinstance(n_.ctx, (ast.Store, ast.Del)) and isinstance(n_.value, ast.Name):
+                        mutated.add(n_.value.id)
+        for nm in mutated - names:
+            if st.has(nm) and isinstance(st.lookup(nm), PyRef) and nm not in self.local_types:
+                st.assign(nm, Unknown(f'local:{nm}'))
         for m in spec.modifies:
             if isinstance(m, tuple) and m[0] == 'heap':
                 st.heap.havoc(m[1], m[2])
